@@ -43,3 +43,54 @@ NOT_DECIDED = {
             "OKI/VOX codec (excluded by the property text)"],
 }
 ASSUMPTIONS = {}
+
+
+def _alac_units():
+    U = []
+    FPBV = 8
+    OUTER = ("0 <= total && total <= (1 << 24) && 0 <= len && total + len == __CPROVER_loop_entry (len) && total %% CH == 0 && len %% CH == 0 "
+             "&& 0 <= g_enc_calls && g_enc_calls <= (1 << 20) && plac->partial_block_frames < FPBV "
+             "&& (long) plac->partial_block_frames * CH == (long) vin_p0 * CH + total - (long) g_enc_calls * (FPBV * CH) "
+             "&& ptr == (const %(T)s *) vin_ptr + total"
+             "%(ITEM)s")
+    ITEM = (" && ((g_n < total && (((long) vin_p0 * CH + g_n) / (FPBV * CH)) == g_enc_calls) ==> plac->buffer [((long) vin_p0 * CH + g_n) %% (FPBV * CH)] == g_val)")
+    INNER = ("0 <= k && k <= writecount && ((0 <= g_n - total && g_n - total < k) ==> iptr [g_n - total] == g_val)" + ITEM)
+    for fn, T, sz, kind in (("alac_write_i", "int", 4, "loop"), ("alac_write_s", "short", 2, "loop"), ("alac_write_f", "float", 4, "convert"), ("alac_write_d", "double", 8, "convert")):
+        for ch in (1, 2, 3):
+            defs = ["-DFN=" + fn, "-DT=" + T, "-DCH=%d" % ch, "-DFPB=%d" % FPBV]
+            repl = ["alac_encode_block"]
+            if kind == "loop":
+                defs.append("-DITEM_VALUE(x)=" + ("(x)" if T == "int" else "((int) (((unsigned) (int) (x)) << 16))"))
+                item = ITEM
+            else:
+                c = "psf_%s2i" % T[0]
+                defs += ["-DCONVERT_FN=%s_array" % c, "-DCONVERT_CLIP_FN=%s_clip_array" % c]
+                repl += [c + "_array", c + "_clip_array"]
+                item = ""
+            inv = (OUTER % dict(SZ=sz, ITEM=item, T=T)).replace("CH", str(ch)).replace("FPBV", str(FPBV)).replace("%%", "%")
+            loops = [{"loop_id": 0, "assigns_locals": True, "assigns": "plac->partial_block_frames, plac->frames_this_block, g_enc_calls, __CPROVER_object_from (plac->buffer)", "invariants": inv, "decreases": "len"}]
+            if kind == "loop":
+                loops = [{"loop_id": 0, "assigns_locals": True, "assigns": "__CPROVER_object_from (plac->buffer)",
+                          "invariants": INNER.replace("CH", str(ch)).replace("FPBV", str(FPBV)).replace("%%", "%"), "decreases": "writecount - k"},
+                         {"loop_id": 1, "assigns_locals": True, "assigns": "plac->partial_block_frames, plac->frames_this_block, g_enc_calls, __CPROVER_object_from (plac->buffer)", "invariants": inv, "decreases": "len"}]
+            u = {"name": "alac.%s.ch%d" % (fn, ch), "props": ["C01", "C07", "C05"], "harness": "alac_write.harness.c", "entry": "h_alac_write", "enforce": fn,
+                 "function": "alac.c:" + fn, "defines": defs, "replace": repl, "loops": {fn: loops}, "timeout": 1200, "backend": "kissat",
+                 "cbmc_flags": ["--object-bits", "9"], "tier": "quick" if ch == 2 else "thorough",
+                 "kind": "enumerated(channels=%d; block length %d frames)" % (ch, FPBV),
+                 "trusted": ["alac_encode_block: consumes the full block, resets the fill level (frame contract; the encoder itself has no unit)"] +
+                            (["psf_%s2i_array / _clip_array frame contract (values: conversion rules are outside this unit)" % T[0]] if kind == "convert" else [])}
+            if kind == "convert":
+                u["restrict_fp"] = ["%s.function_pointer_call.1/psf_%s2i_array,psf_%s2i_clip_array" % (fn, T[0], T[0])]
+            U.append(u)
+    return U
+
+
+_units_without_alac = units
+
+
+def units():
+    # ALAC write glue: written (units/alac_write.harness.c), out of reach -- ALAC_PRIVATE embeds a 1 MiB byte buffer next to
+    # the flexible staging array; every slice havoc on that object exhausts memory during propositional reduction (and
+    # symbolic execution needs an unlimited stack).  Registered only with VERIF_WIP_ALAC=1.
+    import os
+    return _units_without_alac() + (_alac_units() if os.environ.get("VERIF_WIP_ALAC") else [])
